@@ -34,7 +34,7 @@ theorem scram_messages_rfc (C : Crypto) (cr : Cred) (sf : Bytes)
     split at h
     · simp at h
     · simp only [Option.some.injEq] at h
-      exact ⟨_, by rw [← h, scramFinalBare_eq]; simp [sCommaPEq]⟩
+      exact ⟨_, by rw [← h, scramFinalBare_eq]; rfl⟩
 
 /-- **Today's code does not escape the user name**: for the user name `a,b` the client-first message is not the one
 RFC 5802 prescribes (`n,,n=a=2Cb,r=…`); the client sends `n,,n=a,b,r=…`, which a conforming server parses as user
@@ -153,16 +153,292 @@ presented `v=` value with the expected signature that came out equal. -/
 theorem scram_verified_only_by_comparison (C : Crypto) (cr : Cred) (s : ScramSt) (ch : Bytes)
     (h : (scramStep C cr s ch).1.verified = true) :
     s.verified = true ∨ (s.step = 2 ∧ Base64.decodeLenient (gs2Get (parseGS2 ch) 118) = s.serverSig) := by
-  unfold scramStep at h
-  split at h
-  · left; simpa using h
-  · split at h
-    · split at h <;> (left; simpa using h)
-    · split at h
-      · rename_i h2
-        split at h
-        · rename_i heq; right; exact ⟨h2, heq⟩
-        · left; simpa using h
-      · left; simpa using h
+  by_cases h0 : s.step = 0
+  · left; simpa [scramStep, h0] using h
+  · by_cases h1 : s.step = 1
+    · left
+      unfold scramStep at h
+      rw [if_neg h0, if_pos h1] at h
+      dsimp only at h
+      split at h <;> simpa using h
+    · by_cases h2 : s.step = 2
+      · by_cases heq : Base64.decodeLenient (gs2Get (parseGS2 ch) 118) = s.serverSig
+        · right; exact ⟨h2, heq⟩
+        · left; simpa [scramStep, h2, heq] using h
+      · left; simpa [scramStep, h0, h1, h2] using h
+
+/-! ## DIGEST-MD5 -/
+
+/-- **`calculateDigest` is the RFC 2831 §2.1.2.1 response-value** (`method = AUTHENTICATE`) **and the §2.1.3 rspauth value**
+(`method` empty), once the secret is `H(user:realm:passwd)`: the two arrangements of the same concatenations agree. -/
+theorem digest_formula_is_rfc2831 (md5 : Bytes → Bytes) (method uri user realm pass nonce cnonce nc : Bytes) :
+    calculateDigest md5 method uri (md5 (user ++ 58 :: (realm ++ 58 :: pass))) nonce cnonce nc
+      = Ref.responseValue md5 method user realm pass nonce cnonce nc uri := by
+  simp [calculateDigest, Ref.responseValue, Ref.KD, Ref.HEX, Ref.A1, Ref.A2, sAuthColon]
+
+/-- **The digest-response is the one RFC 2831 prescribes and a conforming server accepts it.**  For every credential
+and every challenge the client answers (it carries a nonce; `auth` is among the offered qop values, or none is
+offered): the response is the serialization of a directive list whose `response` is the RFC response-value for
+(user, realm of the challenge, password, nonce, cnonce, nc=00000001, digest-uri); an RFC 2831 server that issued
+this nonce/realm and holds the same password accepts that list, and the `rspauth` it answers with is exactly the
+value the client will insist on in the next step. -/
+theorem digest_response_is_rfc2831 (md5 : Bytes → Bytes) (cr : Cred) (s : DigestSt) (ch nonce : Bytes)
+    (hstep : s.step = 1) (hn : mapGet? (parseMessage ch) kNonce = some nonce)
+    (hq : (splitOn 44 ((mapGet? (parseMessage ch) kQop).getD sAuth)).contains sAuth = true) :
+    (digestStep md5 cr s ch).2
+        = some (serializeMessage (digestOutput md5 cr (mapGet (parseMessage ch) kRealm) nonce
+            (md5 (cr.user ++ 58 :: (mapGet (parseMessage ch) kRealm ++ 58 :: cr.pass)))))
+    ∧ mapGet? (digestOutput md5 cr (mapGet (parseMessage ch) kRealm) nonce
+            (md5 (cr.user ++ 58 :: (mapGet (parseMessage ch) kRealm ++ 58 :: cr.pass)))) kResponse
+        = some (Ref.responseValue md5 sAuthenticate cr.user (mapGet (parseMessage ch) kRealm) cr.pass nonce cr.cnonce sNc1
+            (digestUriOf cr))
+    ∧ Ref.digestServerRspauth md5 cr.user (mapGet (parseMessage ch) kRealm) cr.pass nonce (digestUriOf cr)
+          (digestOutput md5 cr (mapGet (parseMessage ch) kRealm) nonce
+            (md5 (cr.user ++ 58 :: (mapGet (parseMessage ch) kRealm ++ 58 :: cr.pass))))
+        = some (calculateDigest md5 [] (digestUriOf cr) (digestStep md5 cr s ch).1.secret (digestStep md5 cr s ch).1.nonce
+            cr.cnonce sNc1) := by
+  have hq' : sAuth ∈ splitOn 44 ((mapGet? (parseMessage ch) kQop).getD sAuth) := by simpa using hq
+  have hstepEq : digestStep md5 cr s ch =
+      ({ s with step := 2, nonce := nonce, secret := md5 (cr.user ++ 58 :: (mapGet (parseMessage ch) kRealm ++ 58 :: cr.pass)) },
+       some (serializeMessage (digestOutput md5 cr (mapGet (parseMessage ch) kRealm) nonce
+            (md5 (cr.user ++ 58 :: (mapGet (parseMessage ch) kRealm ++ 58 :: cr.pass)))))) := by
+    simp [digestStep, hstep, hn, hq']
+  rw [hstepEq]
+  generalize mapGet (parseMessage ch) kRealm = realm
+  obtain ⟨g1, g2, g3, g4, g5, g6, g7, g8⟩ := digestOutput_gets md5 cr realm nonce (md5 (cr.user ++ 58 :: (realm ++ 58 :: cr.pass)))
+  refine ⟨rfl, ?_, ?_⟩
+  · rw [g8, digest_formula_is_rfc2831]
+  · simp only [Ref.digestServerRspauth, mapGet, g1, g2, g3, g4, g5, g6, g7, g8, Option.getD_some]
+    rw [digest_formula_is_rfc2831, digest_formula_is_rfc2831]
+    simp [sAuth, sNc1, sAuthenticate]
+
+/-- **A wrong `rspauth` is refused**: in step 2 the client answers (with the empty response) exactly when the
+`rspauth` directive equals the RFC 2831 §2.1.3 value; otherwise it refuses and stays in step 2. -/
+theorem digest_rspauth_checked (md5 : Bytes → Bytes) (cr : Cred) (s : DigestSt) (ch : Bytes) (hstep : s.step = 2) :
+    (mapGet (parseMessage ch) kRspauth = calculateDigest md5 [] (digestUriOf cr) s.secret s.nonce cr.cnonce sNc1
+        → digestStep md5 cr s ch = ({ s with step := 3 }, some []))
+    ∧ (mapGet (parseMessage ch) kRspauth ≠ calculateDigest md5 [] (digestUriOf cr) s.secret s.nonce cr.cnonce sNc1
+        → digestStep md5 cr s ch = (s, none)) := by
+  constructor <;> intro h <;> simp [digestStep, hstep, h]
+
+/-- **A challenge without nonce, or offering only other qop values than `auth`, is refused** and the step is kept. -/
+theorem digest_rejects_bad_challenge (md5 : Bytes → Bytes) (cr : Cred) (s : DigestSt) (ch : Bytes) (hstep : s.step = 1)
+    (h : mapGet? (parseMessage ch) kNonce = none
+       ∨ (splitOn 44 ((mapGet? (parseMessage ch) kQop).getD sAuth)).contains sAuth = false) :
+    digestStep md5 cr s ch = (s, none) := by
+  rcases h with h | h
+  · simp [digestStep, hstep, h]
+  · cases hn : mapGet? (parseMessage ch) kNonce with
+    | none => simp [digestStep, hstep, hn]
+    | some n =>
+      have h' : ¬ sAuth ∈ splitOn 44 ((mapGet? (parseMessage ch) kQop).getD sAuth) := by simpa using h
+      simp [digestStep, hstep, hn, h']
+
+/-- **Exact condition for a server holding another password**: it accepts the client's directive list iff its own
+RFC response-value for that password equals the one the client sent.  With `pass' ≠ pass` this is an MD5
+collision-type event (named assumption, not provable for an arbitrary `md5`); exercised by the oracle. -/
+theorem digest_other_password_condition_partial (md5 : Bytes → Bytes) (cr : Cred) (realm nonce pass' : Bytes) :
+    ((Ref.digestServerRspauth md5 cr.user realm pass' nonce (digestUriOf cr)
+        (digestOutput md5 cr realm nonce (md5 (cr.user ++ 58 :: (realm ++ 58 :: cr.pass))))).isSome = true
+      ↔ Ref.responseValue md5 sAuthenticate cr.user realm pass' nonce cr.cnonce sNc1 (digestUriOf cr)
+          = Ref.responseValue md5 sAuthenticate cr.user realm cr.pass nonce cr.cnonce sNc1 (digestUriOf cr)) := by
+  obtain ⟨g1, g2, g3, g4, g5, g6, g7, g8⟩ := digestOutput_gets md5 cr realm nonce (md5 (cr.user ++ 58 :: (realm ++ 58 :: cr.pass)))
+  simp only [Ref.digestServerRspauth, mapGet, g1, g2, g3, g4, g5, g6, g7, g8, Option.getD_some]
+  rw [digest_formula_is_rfc2831]
+  simp only [sAuth, sNc1, sAuthenticate, true_and, Option.some.injEq]
+  constructor
+  · intro h; split at h
+    · rename_i hc; exact hc.symm
+    · simp at h
+  · intro h; rw [if_pos h.symm]; rfl
+
+/-- **`parseMessage` inverts `serializeMessage`** on every directive map (a `QMap`: keys strictly ascending) whose keys
+contain no `=` and no surrounding white space, **provided no value ends in a backslash**.  The hypothesis is forced
+by the unquoting loop (a closing quote preceded by a backslash is skipped even when that backslash is itself
+escaped) — see `C06_defect_digest_trailing_backslash`. -/
+theorem digest_parse_serialize (m : DMap)
+    (hmap : m.Pairwise fun a b => bytesLt a.1 b.1 = true)
+    (hkeys : ∀ e ∈ m, (61 : UInt8) ∉ e.1 ∧ trim e.1 = e.1)
+    (h : ∀ e ∈ m, e.2.getLast? ≠ some 92) :
+    parseMessage (serializeMessage m) = m :=
+  parse_serialize m hmap hkeys h
+
+/-- **The excluded point fails on today's code**: the one-entry map `username ↦ a b\` is serialized correctly as
+`username="a b\\"` but parsed back as the empty map ("Unfinished quoted string"). -/
+theorem C06_defect_digest_trailing_backslash :
+    ¬ ∀ m : DMap, (m.Pairwise fun a b => bytesLt a.1 b.1 = true) → (∀ e ∈ m, (61 : UInt8) ∉ e.1 ∧ trim e.1 = e.1) →
+        parseMessage (serializeMessage m) = m := by
+  intro h
+  have := h [(kUsername, [97, 32, 98, 92])] (by simp) (by decide)
+  revert this
+  decide
+
+/-- **Today's serializer leaves simple values unquoted** although RFC 2831 §2.1.2 prescribes
+`username="…"`, `realm="…"`, `nonce="…"`, `cnonce="…"`, `digest-uri="…"` with mandatory quotes: user `u` goes out as
+`username=u`. (Grammar-level deviation; servers in the field accept both forms.) -/
+theorem C06_defect_digest_unquoted_directive :
+    ¬ ∀ user : Bytes, serEntry (kUsername, user) = kUsername ++ [61, 34] ++ escape user ++ [34] := by
+  intro h
+  have := h [117]
+  revert this
+  decide
+
+/-! ## PLAIN and HT -/
+
+/-- **PLAIN is RFC 4616 §2**: the first response is `NUL user NUL password` whatever the challenge, every later call
+is refused. -/
+theorem plain_is_rfc4616 (cr : Cred) (ch : Bytes) :
+    plainStep cr 0 ch = (1, some (Ref.plainMessage cr.user cr.pass))
+    ∧ ∀ n, n ≠ 0 → plainStep cr n ch = (n, none) := by
+  constructor
+  · simp [plainStep, Ref.plainMessage]
+  · intro n hn; simp [plainStep, hn]
+
+/-- **A server holding the same password accepts, a server holding any other password refuses** (user name and
+password free of NUL, as RFC 4616 requires). -/
+theorem plain_server_accepts_iff (user pass pass' : Bytes) (hu : (0 : UInt8) ∉ user) (hp : (0 : UInt8) ∉ pass) :
+    Ref.plainServerVerify user pass' (Ref.plainMessage user pass) = true ↔ pass' = pass := by
+  rw [Ref.plainServerVerify, splitOn_plain user pass hu hp]
+  simp
+  exact eq_comm
+
+/-- **HT-*-NONE is XEP-0484 §3.1**: with a token stored for exactly this mechanism and the empty challenge the
+response is `user NUL HMAC(token, "Initiator")`. -/
+theorem ht_is_xep0484 (C : Crypto) (cr : Cred) (tok : Bytes) (h : cr.token = some (cr.htMech, tok)) :
+    htStep C cr false [] = (true, some (Ref.htMessage C cr.user tok)) := by
+  simp [htStep, h, Ref.htMessage, sInitiator]
+
+/-- **HT refuses** a second call, a non-empty challenge, a missing token and a token for another mechanism. -/
+theorem ht_refuses (C : Crypto) (cr : Cred) (done : Bool) (ch : Bytes)
+    (h : done = true ∨ ch ≠ [] ∨ cr.token = none ∨ ∃ m t, cr.token = some (m, t) ∧ m ≠ cr.htMech) :
+    htStep C cr done ch = (done, none) := by
+  unfold htStep
+  cases ht : cr.token with
+  | none => rfl
+  | some tok =>
+    rcases h with h | h | h | ⟨m, t, h, hm⟩
+    · simp [h]
+    · have : ch.isEmpty = false := by cases ch <;> simp_all
+      simp [this]
+    · rw [ht] at h; simp at h
+    · rw [ht] at h; simp only [Option.some.injEq] at h; subst h; simp [hm]
+
+/-- **Exact condition for another token**: a server holding `tok'` computes the same message iff the two HMAC
+values coincide (an HMAC collision on keys — named assumption beyond this point). -/
+theorem ht_other_token_condition_partial (C : Crypto) (user tok tok' : Bytes) :
+    Ref.htMessage C user tok' = Ref.htMessage C user tok ↔ C.HMAC tok' sInitiator = C.HMAC tok sInitiator := by
+  simp [Ref.htMessage, sInitiator]
+
+/-! ## The managers: is success reported only after the server proved itself? -/
+
+/- Full statement (FALSE on today's code, see the defect theorems):
+   ∀ C md5 cr sasl2 els, let st := (mgrRun C md5 cr (mgrStart C md5 cr sasl2 .scram).1 els).1;
+     st.result = some .success → isScram st = true → serverSignatureVerified st = true                       -/
+
+/-- **Today's managers report success without any server proof** (both `SaslManager`, `sasl2 = false`, and
+`Sasl2Manager`, `sasl2 = true`): after `<auth/>` was sent for a SCRAM mechanism, a bare `<success/>` finishes the
+task with success although no server signature was ever seen. -/
+theorem C06_defect_early_success (sasl2 : Bool) :
+    ¬ ∀ (C : Crypto) (md5 : Bytes → Bytes) (cr : Cred) (els : List El),
+        (mgrRun C md5 cr (mgrStart C md5 cr sasl2 .scram).1 els).1.result = some .success →
+        isScram (mgrRun C md5 cr (mgrStart C md5 cr sasl2 .scram).1 els).1 = true →
+        serverSignatureVerified (mgrRun C md5 cr (mgrStart C md5 cr sasl2 .scram).1 els).1 = true := by
+  intro h
+  have := h ⟨id, fun k _ => k, fun p _ _ => p⟩ id {} [.success none]
+  simp [mgrRun, mgrStep, mgrStart, mechInit, mechRespond, scram_step0, isScram, serverSignatureVerified, scramSt1] at this
+
+/-- …and the success *data* is never looked at: a `<success/>` carrying a wrong server-final message (SASL2
+`<additional-data/>`, RFC 6120 §6.4.6 success data) is accepted just the same, even after the server-first round. -/
+theorem success_data_never_consulted (C : Crypto) (md5 : Bytes → Bytes) (cr : Cred) (st : MgrSt)
+    (d : Option Bytes) (h : st.pending = true) :
+    (mgrStep C md5 cr st (.success d)).1.result = some .success
+    ∧ (mgrStep C md5 cr st (.success d)).1.mech = st.mech := by
+  simp [mgrStep, h]
+
+/-- **Partial: if the server sends its final message as a challenge first, success implies the proof was checked.**
+For every credential, both managers and every element sequence `pre ++ [<success/>] ++ post` in which `pre`
+contains no `<success/>` and at least two `<challenge/>` elements (server-first and server-final): if the reported
+result is success then the server signature was verified.  What is missing for the full statement is exactly the
+case of fewer than two challenges before `<success/>` (`C06_defect_early_success`). -/
+theorem success_only_after_server_proof_partial (C : Crypto) (md5 : Bytes → Bytes) (cr : Cred) (sasl2 : Bool)
+    (pre post : List El) (d : Option Bytes)
+    (hpre : ∀ e ∈ pre, isSuccess e = false)
+    (hch : 2 ≤ (pre.filter isChallenge).length) :
+    (mgrRun C md5 cr (mgrStart C md5 cr sasl2 .scram).1 (pre ++ El.success d :: post)).1.result = some .success →
+    serverSignatureVerified (mgrRun C md5 cr (mgrStart C md5 cr sasl2 .scram).1 (pre ++ El.success d :: post)).1 = true :=
+  success_after_two_challenges C md5 cr sasl2 pre post d hpre hch
+
+/-- **A refused challenge ends the attempt with an error, never with success**: whatever the mechanism, when
+`respond` returns nothing the task is finished with "Could not respond to SASL challenge" and later elements
+(including `<success/>`) are rejected. -/
+theorem refused_challenge_is_final (C : Crypto) (md5 : Bytes → Bytes) (cr : Cred) (st : MgrSt) (data : Bytes)
+    (later : List El) (hp : st.pending = true) (h : (mechRespond C md5 cr st.mech data).2 = none) :
+    (mgrRun C md5 cr st (.challenge data :: later)).1.result = some .cannotRespond := by
+  have h1 : (mgrStep C md5 cr st (.challenge data)).1.pending = false
+      ∧ (mgrStep C md5 cr st (.challenge data)).1.result = some .cannotRespond := by
+    simp [mgrStep, hp, h]
+  simp only [mgrRun]
+  rw [mgrRun_not_pending C md5 cr _ later h1.1]
+  exact h1.2
+
+/-! ## Non-vacuity: the hypotheses above are met by concrete, reachable situations
+
+`toyCrypto` has HMAC output length 2; `toyCred` is user `u`, password `p`, client nonce `x`.
+`r=xy,s=QQ==,i=1` is a server-first message with server nonce part `y`, salt `A`, one iteration. -/
+
+/-- the hypotheses of `scram_server_accepts` / `scram_honest_exchange_verifies` are satisfiable -/
+example := scram_server_accepts toyCrypto 2 (fun _ _ => rfl) toyCred [65] [121] 4096 (by decide) (by decide) (by decide) (by decide)
+
+/-- `Ref.serverFirst` builds the text one expects -/
+example : Ref.serverFirst [120] [121] [65] 1 = [114, 61, 120, 121, 44, 115, 61, 81, 81, 61, 61, 44, 105, 61, 49] := by decide
+
+/-- the honest toy exchange, evaluated: first message, accepted server-first, verified server-final -/
+example : (scramStep toyCrypto toyCred {} []).2 = some [110, 44, 44, 110, 61, 117, 44, 114, 61, 120] := by decide
+example : ((scramStep toyCrypto toyCred (scramSt1 toyCred) [114, 61, 120, 121, 44, 115, 61, 81, 81, 61, 61, 44, 105, 61, 49]).2).isSome = true := by
+  decide
+
+/-- foreign nonce (`r=zz…` against client nonce `x`), bad parameters (`i=0`, `s=` empty, `i=abc`) -/
+example : ([120] : Bytes).isPrefixOf (gs2Get (parseGS2 [114, 61, 122, 122, 44, 115, 61, 81, 81, 61, 61, 44, 105, 61, 49]) 114) = false := by
+  decide
+example : toInt (gs2Get (parseGS2 [114, 61, 120, 121, 44, 115, 61, 81, 81, 61, 61, 44, 105, 61, 48]) 105) < 1 := by decide
+example : Base64.decodeLenient (gs2Get (parseGS2 [114, 61, 120, 121, 44, 115, 61, 44, 105, 61, 49]) 115) = [] := by decide
+example : ∀ c ∈ gs2Get (parseGS2 [114, 61, 120, 44, 115, 61, 81, 81, 61, 61, 44, 105, 61, 97, 98, 99]) 105, isDigit c = false := by
+  decide
+
+/-- a state in step 2 and a wrong signature (`v=AAAA`) -/
+example : (scramSt2 toyCrypto toyCred [65] [121] 1).step = 2
+    ∧ Base64.decodeLenient (gs2Get (parseGS2 [118, 61, 65, 65, 65, 65]) 118) ≠ (scramSt2 toyCrypto toyCred [65] [121] 1).serverSig := by
+  decide
+
+/-- the DIGEST-MD5 hypotheses on the challenge `nonce="abc",qop="auth"` -/
+example : mapGet? (parseMessage [110, 111, 110, 99, 101, 61, 34, 97, 98, 99, 34, 44, 113, 111, 112, 61, 34, 97, 117, 116, 104, 34]) kNonce
+    = some [97, 98, 99] := by decide
+example : (splitOn 44 ((mapGet? (parseMessage [110, 111, 110, 99, 101, 61, 34, 97, 98, 99, 34, 44, 113, 111, 112, 61, 34, 97, 117, 116, 104, 34])
+    kQop).getD sAuth)).contains sAuth = true := by decide
+
+/-- a two-entry map with a quote and a space in its values satisfies the hypotheses of `digest_parse_serialize`
+(and, evaluated, does round-trip) -/
+example : ([(kRealm, [97, 34, 98]), (kUsername, [120, 32, 121])] : DMap).Pairwise (fun a b => bytesLt a.1 b.1 = true) := by
+  simp [kRealm, kUsername, bytesLt]
+example : parseMessage (serializeMessage [(kRealm, [97, 34, 98]), (kUsername, [120, 32, 121])])
+    = [(kRealm, [97, 34, 98]), (kUsername, [120, 32, 121])] := by decide
+
+/-- PLAIN / HT -/
+example : Ref.plainServerVerify [117] [112] (Ref.plainMessage [117] [112]) = true := by decide
+example : Ref.plainServerVerify [117] [113] (Ref.plainMessage [117] [112]) = false := by decide
+example : htStep toyCrypto { toyCred with htMech := 3, token := some (3, [116]) } false []
+    = (true, some [117, 0, 1, 2]) := by decide
+
+/-- the manager: the honest server script (two challenges, then `<success/>`) meets the hypotheses of the partial
+theorem and does end in a verified success; the bare `<success/>` ends in an unverified one -/
+example : (mgrRun toyCrypto id toyCred (mgrStart toyCrypto id toyCred false .scram).1
+      [.challenge [114, 61, 120, 121, 44, 115, 61, 81, 81, 61, 61, 44, 105, 61, 49], .challenge [118, 61, 65, 103, 65, 61], .success none]).1.result
+    = some .success := by decide
+example : serverSignatureVerified (mgrRun toyCrypto id toyCred (mgrStart toyCrypto id toyCred true .scram).1
+      [.challenge [114, 61, 120, 121, 44, 115, 61, 81, 81, 61, 61, 44, 105, 61, 49], .challenge [118, 61, 65, 103, 65, 61], .success none]).1
+    = true := by decide
+example : (mgrRun toyCrypto id toyCred (mgrStart toyCrypto id toyCred false .scram).1 [.success none]).1.result = some .success
+    ∧ serverSignatureVerified (mgrRun toyCrypto id toyCred (mgrStart toyCrypto id toyCred false .scram).1 [.success none]).1 = false := by
+  decide
 
 end Qx.C06
